@@ -303,6 +303,23 @@ def cases(tier, seed):
     wc, wd = T.wall_of(_dt.datetime(2011, 11, 30, 23, 0, 0)), T.wall_of(_dt.datetime(2024, 2, 29, 1, 30, 0, 5))
     out.append({"stream": "witness", "fn": "minus", "args": ["Europe/Paris", T.wall_of(_dt.datetime(2024, 3, 31, 12, 0, 0)), 0, ["iv", wc, wd]]})
     out.append({"stream": "witness", "fn": "minus", "args": [None, wd, 0, ["iv", wd, wc]]})
+    # ---- February of EVERY century year and of the leap years around it (the clamp reads is_leap(year): helpers.is_leap is the compiled one under the
+    #      extension): month/year steps that land on Feb 28/29 from days 29..31, in and out of leap years, naive DateTime / UTC / Date, every entry
+    kk = 0
+    for Y in list(range(100, 10000, 100)) + [4, 96, 104, 1996, 2004, 2096, 2104, 9996]:
+        for (y0, m0, d0, a) in ((Y, 1, 31, [0, 1, 0, 0, 0, 0, 0, 0]), (Y, 3, 30, [0, -1, 0, 0, 0, 0, 0, 0]), (Y - 1, 12, 29, [0, 2, 0, 0, 0, 0, 0, 0]),
+                                (Y - 4 if Y > 4 else Y + 4, 2, 29 if calendar.isleap(Y - 4 if Y > 4 else Y + 4) else 28, [4 if Y > 4 else -4, 0, 0, 0, 0, 0, 0, 0]),
+                                (Y, 2, 28, [0, 0, 0, 1, 0, 0, 0, 0]), (Y, 3, 1, [0, 0, 0, -1, 0, 0, 0, 0])):
+            if not (1 <= y0 <= 9999):
+                continue
+            kk += 1
+            W0 = T.wall_of(_dt.datetime(y0, m0, d0, 10, 30, 15, 250000))
+            entry = ENTRY_CYCLE[kk % len(ENTRY_CYCLE)] if kk % 3 else "add"
+            kind = (None, "UTC", "date")[kk % 3]
+            if kind == "date":
+                out.append(_mk_date("february-of-every-century", entry if entry in ("add", "subtract", "plus", "minus") else "add", W0, a))
+            else:
+                out.append(_mk("february-of-every-century", entry, kind, W0, 0, a))
     # ---- enumerated month stream
     mdeltas = [0, 1, -1, 2, -2, 11, -11, 12, -12, 13, -13, 23, -23, 24, -24, 25, -25]
     ydeltas = [0, 1, -1, 4, -4]
